@@ -4,7 +4,8 @@ CONSTANTS
   Modes = {0, 1, 6, 7, 12, 13, 18, 19}
   EpsDens = {4, 2}
   LiftBug = FALSE
-  GenMasks = {}
+  GenLo = 1
+  GenHi = 0
 INIT Init
 NEXT Next
 INVARIANTS LiftInv TogetherInv FlagsInv MinInv
